@@ -96,6 +96,7 @@ class _TxnAppMixin:
         self.confs = []      # (seq, t, peer, invoke, kind, detail, data)
         self.inds = []       # (seq, t, peer, invoke, tok, data)
         self.iocb_done = []  # (seq, t, tok, kind, detail, data, n_callbacks)
+        self.iocb_apdu_invoke = {}
         self.resp_plan = {}  # tok -> (rs_len, slow)
         self.alive = True
 
@@ -142,6 +143,9 @@ class _TxnAppMixin:
         self.confs.append((seq, w.now, peer, inv, kind, detail, data))
         for fn in w.outcome_hooks:
             fn(seq)
+        if kind == 'ack':
+            for fn in w.outcome_tok_hooks:
+                fn(self.label, detail)
 
     def make_request(self, server_addr, tok, rq_len, invoke=None):
         req = ConfirmedPrivateTransferRequest(vendorID=VENDOR, serviceNumber=tok)
@@ -191,9 +195,14 @@ class TxnIOApp(_TxnAppMixin, ApplicationIOController, WhoIsIAmServices):
             kind, detail, data = ('none', None, None)
         seq = w.log('iocb', self.label, iocb._tok, kind, repr(detail),
                     len(data) if data is not None else -1, phash(data) if data is not None else '')
+        # the invoke id carried by whatever completed this control block (a reply, an error, an abort ...)
+        done_by = iocb.ioResponse if iocb.ioResponse is not None else iocb.ioError
+        self.iocb_apdu_invoke[iocb._tok] = getattr(done_by, 'apduInvokeID', None)
         self.iocb_done.append((seq, w.now, iocb._tok, kind, detail, data, iocb._ncb))
         for fn in w.outcome_hooks:
             fn(seq)
+        for fn in w.outcome_tok_hooks:
+            fn(self.label, iocb._tok)
 
 
 class VlanStack:
